@@ -459,6 +459,8 @@ func run(tier, path string) {
 	}
 	x.rowsOps(2, (mult+3)/4)
 	x.rowsOps(5, (mult+3)/4)
+	x.reuseSystematic(4)
+	x.reuseSystematic(2)
 	for v := 3; v <= 4; v++ {
 		x.reuseOps(v, mult)
 	}
